@@ -9,11 +9,11 @@
    B ranges over ALL bit sequences whose length fits a usize; ones B = increasing positions of its set bits. *)
 From Coq Require Import NArith List Bool Lia.
 Require Import SDS.Model.Mach SDS.Model.Raw SDS.Model.IntVec SDS.Model.BitVec SDS.Model.SerBV.
-Require Import SDS.Model.Builders SDS.Model.Convert.
+Require Import SDS.Model.Builders SDS.Model.Convert SDS.Model.ConvertC.
 Require SDS.Model.Sparse SDS.Model.RL.
 Require Import SDS.Spec.BitSeq SDS.Spec.BuilderSpec.
 Require Import SDS.Proofs.BVCommon SDS.Proofs.ConvertProof.
-Require SDS.Proofs.ConvertSparse SDS.Proofs.ConvertRL.
+Require SDS.Proofs.ConvertSparse SDS.Proofs.ConvertRL SDS.Proofs.ConvertSource SDS.Proofs.ConvertChainC.
 Import ListNotations.
 Open Scope N_scope.
 
@@ -135,8 +135,7 @@ Print Assumptions C11_rl_decomposition_old_refuted.
 
 (* Lifting to the concrete encoding of Model/RL.v (samples, code units, the three sample indexes): the block
    encoding written by flush is a function of the flushed run list only, so two histories that present the
-   same bit set and end at the same length build the SAME RLVector, or fail in the same way (the model keeps
-   the checked arithmetic of the block bookkeeping; no bound on the number of blocks is assumed). *)
+   same bit set and end at the same length build the SAME RLVector, or fail in the same way (no bound on the number of blocks is assumed). *)
 Definition C11_rl_encoding_statement : Prop :=
   forall (m : mode) (ops1 ops2 : list rlop),
   Forall rlop_wf ops1 -> Forall rlop_wf ops2 ->
@@ -201,43 +200,110 @@ Theorem C11_chain_route_independent :
 Proof. exact chain_route_independent. Qed.
 Print Assumptions C11_chain_route_independent.
 
-(* PARTIAL. The chain theorems take the sparse and the run-length vector at the abstraction level of
-   Model/Builders.v. For chains over the concrete Model/Sparse.v and Model/RL.v structures what is missing is the
-   SOURCE side only: that one_iter() of the concrete SparseVector / RLVector built by copy_bit_vec yields ones B
-   (and len() / count_ones() are |B| / count B). These are the iterator theorems of C02 and C03 (being proved in
-   their own packages); with them the statement below follows from C11_canonical_sparse, C11_canonical_rl and
-   C11_chain. The TARGET side for the concrete models is proved above. *)
-Fixpoint sv_collect (m : mode) (sv : Sparse.sparse) (n : nat) (it : Sparse.sv_iter) : res (list (N * N)) :=
-  match n with
-  | O => Ok []
-  | S k => let* (it', x) := Sparse.it_next_f m sv it in
-           match x with None => Ok [] | Some p => let* t := sv_collect m sv k it' in Ok (p :: t) end
+(* ================================================================== chains over the concrete models *)
+
+(* Source side of the concrete RLVector (from C03: rl_exact, rl_iterators, through C11_canonical_rl): the vector
+   that copy_bit_vec builds from (|B|, ones B) exists - no failure of any kind in either build mode -, has
+   len = |B|, count_ones = count B, and its one_iter(), asked for one item more than there are, yields exactly
+   the ranked positions of ones B. [lenN (runs_of_bits B) < 2^56] is C03's bound on the number of runs. *)
+Theorem C11_source_rl : forall (m : mode) (B : list bool),
+  lenB B < 2 ^ 64 -> lenN (runs_of_bits B) < 2 ^ 56 ->
+  exists v, RL.rl_copy_bit_vec m (ones B) (lenB B) = Ok v /\
+    RL.rl_len v = lenB B /\ RL.rl_ones v = count B /\
+    (let* s := RL.rl_one_iter v in RL.oi_take (S (length (ones B))) m v s) = Ok (index_from (ones B) 0).
+Proof. exact ConvertSource.rl_source_content. Qed.
+Print Assumptions C11_source_rl.
+
+(* x is the concrete structure of its type for B: a BitVector (any supports) storing B; the SparseVector /
+   RLVector that copy_bit_vec builds from (|B|, ones B) - by C11_canonical_sparse / C11_canonical_rl also what
+   the type's own builder builds *)
+Definition C11_crepr (sp : selpath) (m : mode) (w : N) (x : cvec) (B : list bool) : Prop :=
+  match x with
+  | CB b => bv_repr b B
+  | CS sv => Sparse.sv_copy sp m w (lenB B) (ones B) = Ok sv
+  | CR v => RL.rl_copy_bit_vec m (ones B) (lenB B) = Ok v
   end.
 
-Definition C11_chain_concrete_statement : Prop :=
-  forall (sp : selpath) (m : mode) (w : N) (B : list bool), lenB B < 2 ^ 64 -> 1 <= w <= 63 ->
-  (forall sv, Sparse.sv_copy sp m w (lenB B) (ones B) = Ok sv ->
-     Sparse.sv_len sv = lenB B /\ Sparse.sv_count_ones sv = count B /\
-     sv_collect m sv (S (length (ones B))) (Sparse.sv_one_iter sv) = Ok (index_from (ones B) 0)) /\
-  (forall v, RL.rl_copy_bit_vec m (ones B) (lenB B) = Ok v ->
-     RL.rl_len v = lenB B /\ RL.rl_ones v = count B /\
-     (let* s := RL.rl_one_iter v in RL.oi_take (S (length (ones B))) m v s) = Ok (index_from (ones B) 0)).
+(* THE REMAINING PREMISE (the construction and iterator theorems of C02, not yet available): for the low width w
+   at hand the sparse vector of B can be built, and its len / count_ones / one_iter are those of B *)
+Definition C11_sparse_side (sp : selpath) (m : mode) (w : N) (B : list bool) : Prop :=
+  exists sv, Sparse.sv_copy sp m w (lenB B) (ones B) = Ok sv /\ creads m (CS sv) (lenB B) (count B) (ones B).
+(* asked only where a sparse vector occurs *)
+Definition C11_needs (sp : selpath) (m : mode) (w : N) (B : list bool) (t : vtype) : Prop :=
+  match t with TSparse => C11_sparse_side sp m w B | _ => True end.
 
-(* what is proved of it: the targets of every concrete conversion are canonical *)
-Theorem C11_chain_concrete_partial : forall (sp : selpath) (m : mode) (w : N) (B : list bool), lenB B < 2 ^ 64 ->
-  Sparse.sv_copy sp m w (lenB B) (ones B) = Sparse.unwrap_sum (Sparse.sv_build_set sp m w (lenB B) (ones B)) /\
-  (forall ops, Forall rlop_wf ops ->
-     (forall p, in_runs (rl_accepted rl_spec_init ops) p = bitB B p) ->
-     snd (fold_left rl_spec_step ops rl_spec_init) = lenB B ->
-     rmap fst (RL.rl_build m (map ConvertRL.cop ops)) = RL.rl_copy_bit_vec m (ones B) (lenB B)) /\
-  exists b, bv_copy (lenB B) (ones B) = Ok b /\ bv_from_bits B = Ok b /\ bv_repr b B.
+(* Any chain over the concrete models, from a concrete source of any type: it can be carried out (both build
+   modes), every result is the concrete structure of its type for B and hands (|B|, count B, ones B) to the next
+   step, and the final result is what the last target's copy_bit_vec builds from (|B|, count B, ones B).
+   The sparse premise is asked of the source and of the targets of type SparseVector only. *)
+Theorem C11_chain_concrete : forall (sp : selpath) (m : mode) (w : N) (B : list bool) (ts : list vtype) (x : cvec),
+  lenB B < 2 ^ 64 -> lenN (runs_of_bits B) < 2 ^ 56 ->
+  C11_needs sp m w B (ctype_of x) -> Forall (C11_needs sp m w B) ts -> C11_crepr sp m w x B ->
+  (exists y, cchain sp m w ts x y) /\
+  (forall y, cchain sp m w ts x y ->
+     C11_crepr sp m w y B /\ creads m y (lenB B) (count B) (ones B) /\
+     match rev ts with
+     | [] => y = x
+     | t :: _ => ccopy_to sp m w t (lenB B) (count B) (ones B) = Ok y /\ ctype_of y = t
+     end).
+Proof. exact ConvertChainC.cchain_preserves. Qed.
+Print Assumptions C11_chain_concrete.
+
+(* UNCONDITIONAL: chains among BitVector and RLVector (source and every target), of any length *)
+Theorem C11_chain_concrete_bv_rl : forall (sp : selpath) (m : mode) (w : N) (B : list bool) (ts : list vtype) (x : cvec),
+  lenB B < 2 ^ 64 -> lenN (runs_of_bits B) < 2 ^ 56 ->
+  ctype_of x <> TSparse -> Forall (fun t => t <> TSparse) ts -> C11_crepr sp m w x B ->
+  (exists y, cchain sp m w ts x y) /\
+  (forall y, cchain sp m w ts x y ->
+     C11_crepr sp m w y B /\ creads m y (lenB B) (count B) (ones B) /\
+     match rev ts with
+     | [] => y = x
+     | t :: _ => ccopy_to sp m w t (lenB B) (count B) (ones B) = Ok y /\ ctype_of y = t
+     end).
+Proof. exact ConvertChainC.cchain_bv_rl. Qed.
+Print Assumptions C11_chain_concrete_bv_rl.
+
+(* UNCONDITIONAL: such a chain followed by a final conversion INTO a SparseVector: whatever that conversion
+   returns is the sparse vector that copy_bit_vec builds from (|B|, ones B), i.e. (C11_canonical_sparse) the one
+   SparseBuilder::new + try_set + try_from builds *)
+Theorem C11_chain_concrete_into_sparse :
+  forall (sp : selpath) (m : mode) (w : N) (B : list bool) (ts : list vtype) (x y : cvec),
+  lenB B < 2 ^ 64 -> lenN (runs_of_bits B) < 2 ^ 56 ->
+  ctype_of x <> TSparse -> Forall (fun t => t <> TSparse) ts -> C11_crepr sp m w x B ->
+  cchain sp m w (ts ++ [TSparse]) x y ->
+  exists sv, y = CS sv /\ Sparse.sv_copy sp m w (lenB B) (ones B) = Ok sv.
+Proof. exact ConvertChainC.cchain_into_sparse. Qed.
+Print Assumptions C11_chain_concrete_into_sparse.
+
+(* PARTIAL. The full statement: every chain over the concrete models, SparseVector sources included, for every
+   admissible low width whose high part fits a usize. What is missing is exactly [C11_sparse_side_statement]
+   (property C02: the sparse vector of B can be built and its one_iter yields ones B); C11_chain_concrete_partial
+   derives the full statement from it. *)
+Definition C11_sparse_side_statement : Prop :=
+  forall (sp : selpath) (m : mode) (w : N) (B : list bool),
+  lenB B < 2 ^ 64 -> 1 <= w <= 63 -> count B + (lenB B + 2 ^ w - 1) / 2 ^ w < 2 ^ 64 ->
+  C11_sparse_side sp m w B.
+
+Definition C11_chain_concrete_statement : Prop :=
+  forall (sp : selpath) (m : mode) (w : N) (B : list bool) (ts : list vtype) (x : cvec),
+  lenB B < 2 ^ 64 -> lenN (runs_of_bits B) < 2 ^ 56 ->
+  1 <= w <= 63 -> count B + (lenB B + 2 ^ w - 1) / 2 ^ w < 2 ^ 64 ->
+  C11_crepr sp m w x B ->
+  (exists y, cchain sp m w ts x y) /\
+  (forall y, cchain sp m w ts x y ->
+     C11_crepr sp m w y B /\ creads m y (lenB B) (count B) (ones B) /\
+     match rev ts with
+     | [] => y = x
+     | t :: _ => ccopy_to sp m w t (lenB B) (count B) (ones B) = Ok y /\ ctype_of y = t
+     end).
+
+Theorem C11_chain_concrete_partial : C11_sparse_side_statement -> C11_chain_concrete_statement.
 Proof.
-  intros sp m w B Hlen. split; [exact (ConvertSparse.sv_copy_is_build_bits sp m w B Hlen)|].
-  split; [exact (ConvertRL.rl_copy_bit_vec_canonical m B)|].
-  destruct (bv_copy_repr B Hlen) as (b1 & E1 & R1 & S1 & S2 & S3).
-  destruct (bv_from_bits_repr B Hlen) as (b2 & E2 & R2 & T1 & T2 & T3).
-  exists b1. split; [exact E1|]. split; [|exact R1].
-  rewrite E2. f_equal. apply (bv_repr_canonical b2 b1 B); congruence.
+  intros HS sp m w B ts x Hlen Hruns Hw Hfit Hrep.
+  assert (Hn : forall t, ConvertChainC.needs sp m w B t).
+  { intros t. destruct t; cbn; [exact I|exact (HS sp m w B Hlen Hw Hfit)|exact I]. }
+  apply ConvertChainC.cchain_preserves; try assumption; [apply Hn|].
+  apply Forall_forall. intros t _. apply Hn.
 Qed.
 Print Assumptions C11_chain_concrete_partial.
 
